@@ -131,7 +131,7 @@ CHECKS = {
             "Trusted: harness-owned gate action and durable output around the real file input + pipeline; kill instants at gate/commit "
             "granularity (the save protocol itself is C07); one file plus rotated predecessors; a line counts as lost after 6 s without progress; "
             "symlinks, lz4, remove_after, offsets_op tail/reset not covered.", "DESIGN.md §6 C03"),
-    "C04": ('TLC model checking incl. liveness under fairness of detailed protocol specs (EventPoolLowMem/EventPoolStd: atomics, lock, cond-var, heartbeat; StreamProto: stream/streamer at mutex granularity incl. the two-step stream.commit mutant and the heartbeat goroutine's lifetime; ProcGrowth: processor-pool growth) and of Pipeline.tla, each mechanism shown necessary by a spec mutant; TLC-constructed windows replayed on the real code (lost wake-up through verif hook gates; put || tryUnblock on a blocked stream); attend / timeout-then-detach / progress runs of the real pipeline validated by TLC',
+    "C04": ('TLC model checking incl. liveness under fairness of detailed protocol specs (EventPoolLowMem/EventPoolStd: atomics, lock, cond-var, heartbeat; StreamProto: stream/streamer at mutex granularity incl. the two-step stream.commit mutant and the lifetime of the heartbeat goroutine; ProcGrowth: processor-pool growth) and of Pipeline.tla, each mechanism shown necessary by a spec mutant; TLC-constructed windows replayed on the real code (lost wake-up through verif hook gates; put || tryUnblock on a blocked stream); attend / timeout-then-detach / progress runs of the real pipeline validated by TLC',
             'NoWedge, NoEventLost, ChargedRight and eventual completion are model-checked for both pool protocols, the stream protocol and the pipeline model under weak fairness; the windows TLC constructs are reproduced deterministically on the real pools and streams and progress must resume within a bound; real pipeline runs at capacity 1, single processor, time-out-only flushes, timer-only batch flushes (also of a batch that holds only a split parent), back-to-back charges of K streams and detach-after-time-out sequences must reach idle with every stream attended.',
             'Trusted: bounded-time is judged by generous wall-clock bounds with heartbeat intervals shortened in-package; Go scheduler fairness; the stream protocol is replayed at the granularity of Pipeline.tla plus the constructed windows, StreamProto itself is design level.', "DESIGN.md §6 C04"),
     "C06": ("TLA+ transcription of the read loop model-checked against a declarative line/offset oracle (TLC, exhaustive "
